@@ -60,6 +60,18 @@ def _run_check(prop, tier, plan, base_seed, njobs, repo, scratch, t0):
     jobs = []
     by_item = {}
     pair_items = []
+    det_items = []
+    for it in list(plan):
+        # determinism sample: the first k indices of every layer are run a second time in another process under
+        # another PYTHONHASHSEED; tape / interleaving / outcome digests must be identical (else: harness error)
+        if not it.get("pair_hashseed") and not it.get("no_det_sample"):
+            k = max(4, min(40, it["runs"] // 100)) if not it.get("params", {}).get("big") else 2
+            if "ngram" in it["name"]:
+                k = 2
+            it["per_run_upto"] = k
+            det = dict(it, name=it["name"] + "@det", runs=k, workers=1, per_run=True, hashseed="9731")
+            det_items.append((it["name"], det["name"]))
+            jobs.extend(runner.make_range_jobs(det, prop, tier, base_seed, repo, scratch, prop))
     for it in plan:
         if it.get("pair_hashseed"):
             it = dict(it, per_run=True)
@@ -173,6 +185,25 @@ def _run_check(prop, tier, plan, base_seed, njobs, repo, scratch, t0):
             agg[name_a]["probes"]["hashseed-pairs-compared"] = agg[name_a]["probes"].get("hashseed-pairs-compared", 0) + n_cmp
         # the @hs runs are the same seeds again: do not count them twice in the evidence
         agg.pop(name_b, None)
+
+    # --- determinism sample
+    det_compared = 0
+    for name_a, name_b in det_items:
+        per = {}
+        for j in ok_jobs:
+            if j.cfg["plan_name"] in (name_a, name_b):
+                for r in j.result.get("per_run", []):
+                    per.setdefault(r["index"], {})[j.cfg["plan_name"]] = (r["tape"], r["sched"], r["outcome"])
+        for idx, d in sorted(per.items()):
+            if name_a in d and name_b in d:
+                det_compared += 1
+                if d[name_a] != d[name_b]:
+                    harness_problems.append(f"determinism sample: {name_a} index {idx} diverged between two processes / hash seeds: "
+                                            f"{d[name_a]} vs {d[name_b]}")
+        agg.pop(name_b, None)
+    if det_items and agg:
+        first = sorted(agg)[0]
+        agg[first]["probes"]["determinism-sample-compared"] = det_compared
 
     for name, a in agg.items():
         for h in a["harness_errors"]:
